@@ -23,6 +23,7 @@ func c12(p *P) {
 	r.Rule("C12.R5", "filter decision table", 8)
 	r.Rule("C12.R6", "WAL entry = whole message; epoch = instance; distinct objects on read-back", 4)
 	r.Rule("C12.R7", "purge bound = instance − 5 without wrap-around", 2)
+	p.include(c11, map[string]string{"C11.R1": "C12.R8", "C11.R2": "C12.R8b", "C11.R3": "C12.R8c"}, map[string]string{"C12.R8": "the record is durable when Append returns (write ≺ fsync ≺ ack)", "C12.R8b": "restart reads back every acknowledged record", "C12.R8c": "restart never overwrites an old log file"})
 
 	filter := "f3.equivocationFilter.ProcessBroadcast"
 	refuse := callResult("filter accepts", filter, "", -1, avFalse)
